@@ -38,6 +38,7 @@ type session struct {
 	Trace   bool     `json:"trace"`   // record per-instruction events
 	WantAst bool     `json:"wantast"` // include the parser's tree
 	Budget  int      `json:"budget"`  // VM instructions per item
+	WantBC  bool     `json:"wantbc"`  // include the decoded code and data segments and the entry of every item
 }
 
 type budgetExceeded struct{ what string }
@@ -238,7 +239,11 @@ func (r *runner) runSession(s session) M {
 	}
 	vm.VerifStep = nil
 	lexer.VerifTick = nil
-	return M{"id": s.ID, "res": res}
+	out := M{"id": s.ID, "res": res}
+	if s.WantBC {
+		out["bc"] = dumpBC(cs, ds)
+	}
+	return out
 }
 
 func cmdRun() {
@@ -285,4 +290,38 @@ func cmdRun() {
 			os.Exit(3)
 		}
 	}
+}
+
+
+var kindNames = []string{"inv", "imm", "gbl", "lcl", "cls", "stck", "tmp", "ds"}
+
+func bcConst(v value.Type) any {
+	if f, ok := v.ToFunction(); ok {
+		return M{"k": "fn", "entry": f.Node, "params": f.ParamCnt, "locals": f.LocalCnt}
+	}
+	j := valJSON(v)
+	if m, ok := j.(M); ok && m["k"] == "str" {
+		s, _ := v.ToString()
+		m["s"] = s
+	}
+	return j
+}
+
+// dumpBC decodes the code and data segments for the intended-VM model (CalcVM.tla)
+func dumpBC(cs []bytecode.Type, ds []value.Type) M {
+	code := []any{}
+	for _, c := range cs {
+		op := c.OpCode().String()
+		t := strings.HasSuffix(op, "TMP")
+		if t {
+			op = strings.TrimSuffix(op, "TMP")
+		}
+		code = append(code, M{"op": op, "t": t, "k0": kindNames[c.Src0()], "a0": c.Src0Addr(), "k1": kindNames[c.Src1()], "a1": c.Src1Addr(),
+			"k2": kindNames[c.Src2()], "a2": c.Src2Addr()})
+	}
+	dsv := []any{}
+	for _, d := range ds {
+		dsv = append(dsv, bcConst(d))
+	}
+	return M{"code": code, "ds": dsv}
 }
